@@ -126,3 +126,38 @@ def validate_loop(self, merge_policy, _it, _seq):
 @assumed("method:ctime", props=[])
 class Ctime:
     sorts = {"result": "str"}
+
+
+@contract(CLI + ".set_args", props=["C13", "C16", "C19"], abstract=True)
+class SetArgs:
+    """C13: command-line regexes are anchored at both ends; C19: the preamble is trimmed and an empty / blank one is dropped;
+    C16: generator options are exactly the three CLI switches plus the user's NAME=VALUE pairs."""
+    sorts = {"merge_policy": "list", "structure": "str", "framework": "str", "code_generator": "any",
+             "code_generator_kwargs_raw": "any", "dict_keys_regex": "any", "dict_keys_fields": "any",
+             "disable_unicode_conversion": "bool", "preamble": "any", "dict_keys_regex[]": "str"}
+    modifies = ["*"]
+
+    def requires(self, merge_policy, structure, framework, code_generator, code_generator_kwargs_raw, dict_keys_regex,
+                 dict_keys_fields, disable_unicode_conversion, preamble):
+        return {"preamble_str_or_none": is_none(preamble) or ty_is(preamble, str),
+                "regex_list_or_none": is_none(dict_keys_regex) or (ty_is(dict_keys_regex, list) and forall(as_list(dict_keys_regex), lambda r: ty_is(r, str))),
+                "no_kwargs": is_none(code_generator_kwargs_raw)}
+
+    def raises(self, merge_policy, structure, framework, code_generator, code_generator_kwargs_raw, dict_keys_regex,
+               dict_keys_fields, disable_unicode_conversion, preamble):
+        return {"*": True}
+
+    def ensures(self, merge_policy, structure, framework, code_generator, code_generator_kwargs_raw, dict_keys_regex,
+                dict_keys_fields, disable_unicode_conversion, preamble):
+        rx = as_list(dict_keys_regex)
+        out = as_list(self.dict_keys_regex)
+        given = (not is_none(dict_keys_regex)) and seq_len(rx) > 0
+        kw = as_dict(self.model_generator_kwargs)
+        return {
+            "regex_anchored@C13": implies(given, seq_len(out) == seq_len(rx) and forall(range(seq_len(rx)), lambda j: sval(attr_of(at(out, j), "pattern")) == "^" + sval(at(rx, j)) + "$")),
+            "no_regex_no_patterns@C13": implies(not given, seq_len(out) == 0),
+            "preamble_trimmed@C19": implies(not is_none(preamble) and len(sval(preamble)) > 0 and not is_blank(sval(preamble)), ty_is(self.preamble, str) and sval(self.preamble) == ext("str.strip", sval(preamble))),
+            "blank_preamble_dropped@C19": implies(is_none(preamble) or len(sval(preamble)) == 0 or is_blank(sval(preamble)), is_none(self.preamble)),
+            "generator_options@C16": dict_len(kw) == 3 and kw["post_init_converters"] is attr_of(self, "strings_converters")
+            and kw["convert_unicode"] is box_bool(not disable_unicode_conversion) and kw["max_literals"] is attr_of(self, "max_literals"),
+        }
